@@ -465,6 +465,28 @@ Proof.
   change 0%nat with (nreg reg []). rewrite (wrap_transparent reg evs [] s' pst0 E). reflexivity.
 Qed.
 
+(* with separate sets: `dec` opens the windows, `reg` is what the profiler records while
+   it is on (kernprof -b: cProfile records every function inside the decorated
+   functions' windows): the windowed run is the plain run over the windowed events *)
+Lemma windowed_run reg dec evs : forall d st,
+  snd (wprof_run reg (d, st) (wrap dec evs)) = prof_run reg st (windowed_from dec d evs).
+Proof.
+  induction evs as [|e t IH]; intros d st; [reflexivity|].
+  unfold wrap. cbn [flat_map]. fold (wrap dec t).
+  unfold wprof_run. rewrite fold_left_app.
+  destruct e as [f|f l|f]; cbn [windowed_from].
+  - destruct (dec f); cbn [fold_left wstep fst snd].
+    + unfold prof_run. cbn [fold_left]. apply IH.
+    + destruct d; cbn [fst snd]; unfold prof_run; cbn [fold_left]; apply IH.
+  - cbn [fold_left wstep fst snd]. destruct d; cbn [fst snd]; unfold prof_run; cbn [fold_left]; apply IH.
+  - destruct (dec f); cbn [fold_left wstep fst snd]; destruct d; cbn [fst snd pred];
+      unfold prof_run; cbn [fold_left]; apply IH.
+Qed.
+
+Theorem builtin_mode_records_profiled_sections reg dec evs :
+  snd (wprof_run reg (0%nat, pst0) (wrap dec evs)) = prof_run reg pst0 (windowed_events dec evs).
+Proof. apply windowed_run. Qed.
+
 (* ... and a segment that is run outside a window is lost: a generator finalised by
    close() with the profiler switched off (its clean-up line 5 executed, 0 hits) *)
 Example unwindowed_segment_is_lost :
